@@ -4,7 +4,7 @@ length)."""
 from __future__ import annotations
 
 from framelint.core import Ctx
-from framelint.canon import canon_function, show, to_poly, k_num, mk_and, mk_eq
+from framelint.canon import canon_function, show, to_poly, k_num, mk_and, mk_eq, Sigma
 from .common import GEOM
 
 S_ = ("self",)
@@ -50,12 +50,18 @@ def point_arithmetic(ctx: Ctx, ops=None) -> None:
     what = {"__neg__": "-p == Point(-x, -y)", "__add__": "p + q == Point(x + q.x, y + q.y) exactly (no rounding)",
             "__sub__": "p - q == p + (-q)", "__mul__": "p * q component-wise", "__truediv__": "p / q component-wise",
             "__and__": "p & q == x*q.x + y*q.y", "norm": "|p| == sqrt(x^2 + y^2) for every p (no case split)"}
+    def unconv(c):
+        """'other = Point(other)' re-binding the parameter, or a new local holding Point(other): one form"""
+        if c and c[0] == conv:
+            return tuple(Sigma(raw_subst={O: conv[2]}).apply(st) for st in c[1:])
+        return tuple(c)
     for op, forms in table.items():
         if forms is None or (ops is not None and op not in ops):
             continue
+        forms = [unconv(fm) for fm in forms]
         f = ctx.func(GEOM, "Point." + op)
         c = canon_function(f, ctx.model, None, expand=True)
-        c = tuple(st for st in c if st[0] != "assert")
+        c = unconv(tuple(st for st in c if st[0] != "assert"))
         ctx.site(f.where, what[op])
         if c not in forms:
             ctx.report(f.where, f"point-{op.strip('_')} " + "; ".join(show(x) for x in c)[:200],
